@@ -128,7 +128,7 @@ Print Assumptions C02_refuted_lenkeys.
 (** tie to the correspondence check: on well-formed cases agreement with the repaired model
     is exactly the executable spec evaluated on the implementation's observations *)
 Theorem C02_agree_is_spec : forall c,
-  Forall wf_sop c -> agree v_fixed proj_c02 c = spec_ok proj_c02 c.
+  Forall wf_sop c -> agree v_fixed false proj_c02 c = spec_ok proj_c02 c.
 Proof. exact agree_is_spec_c02. Qed.
 Print Assumptions C02_agree_is_spec.
 
